@@ -148,6 +148,9 @@ type ruleJ struct {
 	Targets string   `json:"targets,omitempty"`
 	T       []string `json:"t"`
 	Multi   bool     `json:"multi,omitempty"`
+	// ChainChild: this rule is the chain link of the previous rule (its id is the parent's + 1
+	// by construction and is only used to key the observations)
+	ChainChild bool `json:"chain_child,omitempty"`
 }
 
 type callJ struct {
@@ -182,10 +185,13 @@ func unhex(h string) string {
 	return string(b)
 }
 
+// the shards open nat_scope (Prelude), so small naturals are printed bare
+func nat(n int) string { return strconv.Itoa(n) }
+
 func natList(l []int) string {
 	it := make([]string, len(l))
 	for i, n := range l {
-		it[i] = vh.Nat(n)
+		it[i] = nat(n)
 	}
 	return vh.List(it)
 }
@@ -257,6 +263,7 @@ type runner struct {
 	seen        map[string]bool
 	nontrivial  int
 	oracleEvals int
+	nDirect     int
 	hits        int // direct calls answered (partly) from the cache — measured through the dump sizes
 }
 
@@ -334,6 +341,16 @@ func (rn *runner) runDirect(cj caseJSON) {
 	}
 	cache := corazawaf.VerifC12NewCache()
 	var callTerms, obsTerms []string
+	var valPool []string
+	valIdx := map[string]int{}
+	vi := func(v string) int {
+		if i, ok := valIdx[v]; ok {
+			return i
+		}
+		valIdx[v] = len(valPool)
+		valPool = append(valPool, v)
+		return valIdx[v]
+	}
 	type obsJ struct {
 		Values []string `json:"values_hex"`
 		Errs   []int    `json:"errs"`
@@ -359,7 +376,7 @@ func (rn *runner) runDirect(cj caseJSON) {
 			rn.hits++
 		}
 		codes := errCodes(errs)
-		callTerms = append(callTerms, fmt.Sprintf("(%s, (%s, %s, %s), %s)", vh.Nat(c.Rule), vh.Nat(c.Var), vh.Nat(kid[c.Key]), vh.HxS(val), vh.Nat(c.Idx)))
+		callTerms = append(callTerms, fmt.Sprintf("(%s, (%s, %s, %s), %s)", nat(c.Rule), nat(c.Var), nat(kid[c.Key]), nat(vi(val)), nat(c.Idx)))
 		obsTerms = append(obsTerms, fmt.Sprintf("(%s, %s)", vh.HxList(vals), natList(codes)))
 		o := obsJ{Errs: codes}
 		for _, v := range vals {
@@ -377,12 +394,19 @@ func (rn *runner) runDirect(cj caseJSON) {
 		if !ok {
 			k = 9999
 		}
-		dumpTerms = append(dumpTerms, fmt.Sprintf("((%s, %s, %s, %s), %s, %s, %s)", vh.Nat(k), vh.Nat(e.Index), vh.Nat(e.Variable), vh.Nat(canon(e.ChainID)),
-			vh.HxS(e.Input), vh.HxS(e.Output), natList(errCodes(e.Errs))))
+		dumpTerms = append(dumpTerms, fmt.Sprintf("((%s, %s, %s, %s), %s, %s, %s)", nat(k), nat(e.Index), nat(e.Variable), nat(canon(e.ChainID)),
+			nat(vi(e.Input)), vh.HxS(e.Output), natList(errCodes(e.Errs))))
 	}
 	sort.Strings(dumpTerms)
 	cj.Observed = observed
-	rn.emit(fmt.Sprintf("CD %s %s %s %s", vh.List(ruleTerms), vh.List(callTerms), vh.List(obsTerms), vh.List(dumpTerms)), cj)
+	// the full dump of the real cache is compared in every case of the thorough tier, in one of
+	// three in the quick tier (its size always)
+	dumpTerm := "(inr " + nat(len(dump)) + ")"
+	if rn.cfg.Thorough() || rn.cfg.Replay != "" || cj.Calls == nil || rn.nDirect%3 == 0 {
+		dumpTerm = "(inl " + vh.List(dumpTerms) + ")"
+	}
+	rn.nDirect++
+	rn.emit(fmt.Sprintf("CD %s %s %s %s %s", vh.List(ruleTerms), vh.HxList(valPool), vh.List(callTerms), vh.List(obsTerms), dumpTerm), cj)
 	rn.res.InputDistribution["direct"]++
 	rn.res.InputDistribution[fmt.Sprintf("direct_calls_%s", bucket(len(cj.Calls)))]++
 	sig := sigOf(cj)
@@ -453,7 +477,12 @@ func (e *capEvent) Msg(msg string) {
 		e.l.sink.errs[e.l.ruleID] = append(e.l.sink.errs[e.l.ruleID], e.errs)
 	}
 }
-func (e *capEvent) Str(string, string) debuglog.Event { return e }
+func (e *capEvent) Str(k, _ string) debuglog.Event {
+	if e.ctx && k == "chain_rule_ref" {
+		e.ruleID++ // a chain link without id: keyed as parent id + 1
+	}
+	return e
+}
 func (e *capEvent) Err(err error) debuglog.Event {
 	if err != nil {
 		e.errs = append(e.errs, errCode(err))
@@ -476,7 +505,12 @@ func directives(rules []ruleJ, ident bool) string {
 	b.WriteString("SecRuleEngine On\nSecRequestBodyAccess On\n")
 	b.WriteString("SecAction \"id:9000,phase:1,pass,nolog,setvar:tx.v=Hello%20World,setvar:tx.w=%{REQUEST_HEADERS.y}\"\n")
 	for k, r := range rules {
-		acts := fmt.Sprintf("id:%d,phase:%d,pass,log,t:none", r.ID, r.Phase)
+		acts := fmt.Sprintf("id:%d,phase:%d,pass,log,setenv:c12v=r%d,t:none", r.ID, r.Phase, r.ID)
+		if r.ChainChild {
+			acts = "t:none"
+		} else if k+1 < len(rules) && rules[k+1].ChainChild {
+			acts = strings.Replace(acts, ",pass,", ",pass,chain,", 1)
+		}
 		if ident {
 			acts += fmt.Sprintf(",t:c12id%d", k)
 		}
@@ -553,6 +587,13 @@ func runTx(waf *corazawaf.WAF, sink *capSink, cj caseJSON, wantDump bool) txObs 
 			obs.Rules[id] = ro
 		}
 		for _, md := range mr.MatchedDatas() {
+			ro := ro
+			if lvl := md.ChainLevel(); lvl > 0 {
+				if ro = obs.Rules[id+lvl]; ro == nil {
+					ro = &ruleObs{}
+					obs.Rules[id+lvl] = ro
+				}
+			}
 			ro.Seen = append(ro.Seen, seenT{md.Variable().Name(), md.Key(), md.Value()})
 		}
 	}
@@ -719,6 +760,14 @@ func (rn *runner) runWAF(cj caseJSON) {
 			}
 			if len(ents) > 0 {
 				sort.Strings(ents)
+				if max := rn.cfg.Pick(12, 24); len(ents) > max && rn.cfg.Replay == "" {
+					// a deterministic sample (every k-th entry)
+					var sm []string
+					for i := 0; i < max; i++ {
+						sm = append(sm, ents[i*len(ents)/max])
+					}
+					ents = sm
+				}
 				c := cj
 				c.Part = "cache-dump"
 				c.Observed = len(ents)
@@ -850,6 +899,13 @@ func genDirect(r *rand.Rand) caseJSON {
 		}
 	}
 	cj := caseJSON{Kind: "direct"}
+	errMode := r.Intn(6) == 0
+	if errMode { // error lists of length 3..6 shared between rules that continue differently
+		base = base[:0]
+		for n := 3 + r.Intn(3); len(base) < n; {
+			base = append(base, []string{"c12fail0", "c12fail1", "c12fail2", "hexDecode", "lowercase", "c12fail3"}[r.Intn(6)])
+		}
+	}
 	nr := 2 + r.Intn(4)
 	for i := 0; i < nr; i++ {
 		cj.Rules = append(cj.Rules, ruleJ{T: genChain(r, base), Multi: r.Intn(10) == 0})
@@ -865,10 +921,26 @@ func genDirect(r *rand.Rand) caseJSON {
 	for i := range vals {
 		vals[i] = genValue(r)
 	}
-	nc := 4 + r.Intn(16)
+	nc := 4 + r.Intn(13)
+	if errMode {
+		// one argument, evaluated again and again by rules sharing a failing prefix
+		cj.Keys, vars, vals = cj.Keys[:1], vars[:1], vals[:1+r.Intn(2)]
+		nv = len(vals)
+		for i := range cj.Rules {
+			k := 3
+			if k > len(base) {
+				k = len(base)
+			}
+			cj.Rules[i].Multi = false
+			cj.Rules[i].T = append(append([]string(nil), base[:k+r.Intn(len(base)-k+1)]...), fmt.Sprintf("c12fail%d", r.Intn(nFail)))
+		}
+	}
 	for i := 0; i < nc; i++ {
 		cj.Calls = append(cj.Calls, callJ{Rule: r.Intn(len(cj.Rules)), Var: vars[r.Intn(len(vars))], Key: r.Intn(len(cj.Keys)),
 			Idx: r.Intn(2 + r.Intn(2)), Value: hexs(vals[r.Intn(nv)])})
+		if errMode {
+			cj.Calls[i].Idx = 0
+		}
 	}
 	return cj
 }
@@ -891,6 +963,7 @@ var targets = []targetT{
 	{"REQUEST_COOKIES", false, "REQUEST_COOKIES", false}, {"REQUEST_COOKIES_NAMES", false, "REQUEST_COOKIES_NAMES", false},
 	{"MATCHED_VAR", true, "MATCHED_VAR", false}, {"MATCHED_VAR", true, "MATCHED_VAR", false}, {"MATCHED_VAR_NAME", true, "MATCHED_VAR_NAME", false},
 	{"TX:v", true, "TX", false}, {"TX:w", true, "TX", false}, {"&ARGS", true, "&ARGS", false}, {"&ARGS_GET:a", true, "&ARGS_GET", false},
+	{"RULE:id", true, "RULE", false}, {"ENV:c12v", true, "ENV", false}, {"ENV:c12v", true, "ENV", false},
 	{"REQUEST_URI", true, "REQUEST_URI", false}, {"QUERY_STRING", true, "QUERY_STRING", false}, {"REQUEST_METHOD", true, "REQUEST_METHOD", false},
 }
 
@@ -946,6 +1019,20 @@ func genWAF(r *rand.Rand) caseJSON {
 		// the single target must really produce a value for MATCHED_VAR of the next rule to be defined by it
 		prevSingle = single && !strings.HasPrefix(rule.Targets, "ARGS_POST") && rule.Targets != "ARGS:b" && !strings.HasPrefix(rule.Targets, "MATCHED_VAR_NAME")
 		cj.Rules = append(cj.Rules, rule)
+		if r.Intn(5) == 0 && i+1 < nr {
+			// a chain link reading what the parent's matches left behind
+			i++
+			ct := []string{"MATCHED_VARS", "&MATCHED_VARS", "MATCHED_VARS_NAMES", "TX:v", "REQUEST_METHOD", "RULE:id", "ENV:c12v", "MATCHED_VARS|ENV:c12v"}
+			if prevSingle {
+				ct = append(ct, "MATCHED_VAR", "MATCHED_VAR", "MATCHED_VAR_NAME", "MATCHED_VAR|TX:w")
+			}
+			child := ruleJ{ID: 100 + i, Phase: phase, Targets: ct[r.Intn(len(ct))], T: genChain(r, base), Multi: r.Intn(8) == 0, ChainChild: true}
+			if r.Intn(2) == 0 {
+				child.T = append([]string(nil), rule.T...)
+			}
+			cj.Rules = append(cj.Rules, child)
+			prevSingle = false
+		}
 	}
 	// phases must be evaluated in order for MATCHED_VAR reasoning; rules keep their syntactic order within a phase
 	return cj
@@ -1027,16 +1114,16 @@ func Run(cfg vh.Config) (*vh.Result, error) {
 			rn.runDoc(d)
 		}
 		res.InputDistribution["corpus"] = len(docs)
-		for i := 0; i < cfg.Pick(500, 12000); i++ {
+		for i := 0; i < cfg.Pick(500, 8000); i++ {
 			rn.runDirect(genDirect(rng))
 		}
 		reps := 10
-		for i := 0; i < cfg.Pick(300, 6000); i++ {
+		for i := 0; i < cfg.Pick(300, 3000); i++ {
 			c := genWAF(rng)
 			c.Reps = reps
 			rn.runWAF(c)
 		}
-		for i := 0; i < cfg.Pick(200, 4000); i++ {
+		for i := 0; i < cfg.Pick(200, 2000); i++ {
 			rn.runIntern(genIntern(rng))
 		}
 	}
@@ -1044,7 +1131,7 @@ func Run(cfg vh.Config) (*vh.Result, error) {
 	res.DistinctNontrivial = rn.nontrivial
 	res.InputDistribution["direct_calls_served_from_cache"] = rn.hits
 
-	const per = 250
+	per := cfg.Pick(200, 500)
 	for i, k := 0, 0; i < len(rn.terms); i, k = i+per, k+1 {
 		j := i + per
 		if j > len(rn.terms) {
@@ -1053,6 +1140,7 @@ func Run(cfg vh.Config) (*vh.Result, error) {
 		info, err := vh.WriteShard(cfg.OutDir, vh.Shard{
 			Name: fmt.Sprintf("C12_%d", k), Imports: "From Verif Require Import Base Transform TCache CorrC12.",
 			CaseType: "CorrC12.case", MismatchF: "CorrC12.mismatches", Terms: rn.terms[i:j], Cases: rn.cases[i:j],
+			Prelude: "Open Scope nat_scope.",
 		})
 		if err != nil {
 			return nil, err
